@@ -540,6 +540,24 @@ func genRotation(r *RNG, p *Profile, pt *ParamTables, start Day, end Day) []RotE
 	return rot
 }
 
+// inGrowingAuto is inGrowing widened by the automatic sowing window and latest harvest date.
+func (w *World) inGrowingAuto(d Day) bool {
+	for i := 1; i < len(w.Rot); i++ {
+		lo, hi := w.Rot[i].Sow, w.Rot[i].Harvest
+		s1, _, h2 := w.AutoWindows(i)
+		if w.Cfg.AutoSow && s1 < lo {
+			lo = s1
+		}
+		if w.Cfg.AutoHarvest && h2 > hi {
+			hi = h2
+		}
+		if d > lo-3 && d <= hi+3 {
+			return true
+		}
+	}
+	return false
+}
+
 func inGrowing(rot []RotEntry, d Day) bool {
 	for i := 1; i < len(rot); i++ {
 		if d > rot[i].Sow-2 && d <= rot[i].Harvest+2 {
@@ -719,6 +737,22 @@ func GenWorld(r *RNG, p Profile, pt *ParamTables) *World {
 		c.AutoSow, c.AutoFert, c.AutoIrr, c.AutoHarvest = r.Bool(0.5), r.Bool(0.5), r.Bool(0.5), r.Bool(0.5)
 	}
 	w.Auto = genAutoLines(r, w)
+	if !w.autoValid() {
+		// tighten every window to the rotation's own dates
+		for i := range w.Auto {
+			for _, e := range w.Rot[1:] {
+				if e.Crop == w.Auto[i].Crop {
+					_, w.Auto[i].Sow1M, w.Auto[i].Sow1D = e.Sow.YMD()
+					_, w.Auto[i].Sow2M, w.Auto[i].Sow2D = e.Sow.YMD()
+					_, w.Auto[i].Har2M, w.Auto[i].Har2D = e.Harvest.YMD()
+					break
+				}
+			}
+		}
+		if !w.autoValid() {
+			c.AutoSow, c.AutoHarvest = false, false
+		}
+	}
 	w.IrrOn = r.Bool(0.6)
 	if !p.NoMgmt {
 		// fertiliser: ascending dates, not inside [start, ...) constraints except >= start
@@ -735,7 +769,9 @@ func GenWorld(r *RNG, p Profile, pt *ParamTables) *World {
 		}
 		d = start + Day(r.Range(1, 200))
 		for k := r.Range(0, 5); k > 0 && d < end; k-- {
-			if !inGrowing(w.Rot, d) {
+			// with automatic harvest the model postpones every tillage that falls due while a crop with an open
+			// harvest date is current (even before its sowing) until after the harvest: no tillage events then
+			if !w.inGrowingAuto(d) && !(c.AutoHarvest && len(w.Rot) > 1) {
 				w.Till = append(w.Till, TillEvent{Day: d, Depth: r.PickI([]int{5, 10, 20, 30, 40}), Type: r.PickI([]int{1, 1, 2})})
 			}
 			d += Day(r.Range(1, 300))
@@ -806,6 +842,52 @@ func genGWSeries(r *RNG, start, end Day, n int, shallow bool) []GWPoint {
 		}
 	}
 	return s
+}
+
+func (w *World) autoLine(crop string) *AutoLine {
+	for i := range w.Auto {
+		if w.Auto[i].Crop == crop {
+			return &w.Auto[i]
+		}
+	}
+	return nil
+}
+
+// AutoWindows returns the sowing window and latest harvest date the automatic-management table gives rotation entry i
+// (month/day of the table in the year of the rotation file's dates).
+func (w *World) AutoWindows(i int) (sow1, sow2, har2 Day) {
+	e := w.Rot[i]
+	a := w.autoLine(e.Crop)
+	if a == nil {
+		return e.Sow, e.Sow, e.Harvest
+	}
+	return DayOf(e.Sow.Year(), a.Sow1M, a.Sow1D), DayOf(e.Sow.Year(), a.Sow2M, a.Sow2D), DayOf(e.Harvest.Year(), a.Har2M, a.Har2D)
+}
+
+// autoValid: with automatic sowing/harvest every sowing window opens after the latest harvest of the
+// preceding crop and every crop has time to grow (the quantifier of C16; also keeps other checks on valid input).
+func (w *World) autoValid() bool {
+	c := &w.Cfg
+	if !c.AutoSow && !c.AutoHarvest {
+		return true
+	}
+	prevEnd := w.Rot[0].Harvest
+	for i := 1; i < len(w.Rot); i++ {
+		e := w.Rot[i]
+		s1, s2, h2 := w.AutoWindows(i)
+		firstSow, lastSow, lastHar := e.Sow, e.Sow, e.Harvest
+		if c.AutoSow {
+			firstSow, lastSow = s1, s2
+		}
+		if c.AutoHarvest {
+			lastHar = h2
+		}
+		if firstSow < prevEnd+6 || lastSow < firstSow || lastHar < lastSow+60 {
+			return false
+		}
+		prevEnd = lastHar
+	}
+	return true
 }
 
 func genAutoLines(r *RNG, w *World) []AutoLine {
